@@ -190,3 +190,18 @@ def nontrivial(fn, arg, out):
     return out[0] == 0 and bool(out[1][0] or out[1][1] or out[1][3] or out[1][8])
 
 from props.c03_oracle import oracle
+
+# ----------------------------------------------------------------------------------------
+# known finding: chr() raises OverflowError (not ValueError) beyond the C int range, and builtins.py only turns
+# ValueError into a BibTeXError
+def _sig_overflow(kind, fn, arg, detail):
+    import re
+    if kind != 'oracle' or not isinstance(detail, str):
+        return False
+    m = re.match(r'int\.to\.chr\$ of (-?\d+) \(not a character code\) must be reported as a BibTeX error; a Python exception escaped', detail)
+    return bool(m) and not (-2**31 <= int(m.group(1)) < 2**31)
+KNOWN_SIGNATURES = {'C03-F1': _sig_overflow}
+
+def replay_known(finding):
+    arg = norm(finding['pinned']['arg'])
+    return oracle(1, arg, impl_run(arg))
